@@ -72,6 +72,7 @@ def _np3():
 
 
 EF, EB = frozenset({"f"}), b"y"  # hashable IDs that are neither numbers nor strings
+NAN = float("nan")  # one shared object: found again by identity
 
 def _become(H, X):
     """Continue the history on X (a copy, an unpickled twin, a network built from H): H takes over X's complete instance
@@ -89,7 +90,7 @@ def _repickle(H):
 
 
 NAMESPACE = {"become": _become, "repickle": _repickle, "shuffle": _shuffle, "aliased": _aliased, "TA": TA, "SB": SB, "FC": FC, "ET": ET, "ES": ES, "NP3": _np3(),
-             "EF": EF, "EB": EB}
+             "EF": EF, "EB": EB, "NAN": NAN}
 
 
 def namespace():
